@@ -451,7 +451,12 @@ fn run_c05(seed: u64, tier: Tier) -> i32 {
           minimised.lock().unwrap().push((*idx, v.clone(), n));
           continue;
         }
-        let mut m = c05t::minimise_world("c05", v, 60);
+        let light = c05t::raw_predicate_holds(v);
+        let mut m = c05t::minimise_world_opt("c05", v, 60, light);
+        if light && !known.iter().any(|k| k.matches("C05", &m, &|p, v| c05t::predicate(p, v))) {
+          // the light pass did not end in a known finding: minimise fully before reporting
+          m = c05t::minimise_world_opt("c05", &m, 60, false);
+        }
         if m.class == "stack-overflow" || m.class == "abort" || m.class == "abort-on-allocation" {
           // a label for the reader; never part of the verdict or of known-finding matching
           let wh = c05t::gdb_where("c05", &m.world);
